@@ -144,6 +144,10 @@ def run_in_child(fn, arg, timeout=60.0):
         code = 0
         try:
             os.close(r)
+            # the code under test may print (prysm.io does on struct errors): keep
+            # the check's stdout clean
+            dn = os.open(os.devnull, os.O_WRONLY)
+            os.dup2(dn, 1)
             try:
                 res = fn(arg)
                 out = json.dumps({"ok": res}, allow_nan=True)
